@@ -36,3 +36,6 @@ Definition gen_rr_reBuild (enableWeight : bool) (n_eps : nat) (bswl : list nat) 
     s
     else s) in
   s.
+(* consistenthash addLocked: virtualHost := fmt.Sprintf("%s_%d", ep.HashKey(), i) *)
+Definition gen_vnode_format : list N := [37; 115; 95; 37; 100]%N.
+Definition gen_vnode_args : list (list N) := [[101; 112; 46; 72; 97; 115; 104; 75; 101; 121; 40; 41]%N; [105]%N].
